@@ -61,6 +61,10 @@ method {x}_qm(this: Int): Int {{ this + 2 }}
 public fun {x}_mkqe(): {X}QE {{ {X}QEa }}
 public fun {x}_mkpe(): {X}PE {{ {X}PEa }}
 public fun {x}_mkqs(): {X}QS {{ {X}QS{{ x: 7 }} }}
+public fun {x}_rf(): Int {{ 3 }}
+fun {x}_rf(): Int {{ 4 }}
+fun {x}_sf(): Int {{ 5 }}
+public fun {x}_sf(): Int {{ 6 }}
 """.format(x=x, X=X)
 
 
@@ -73,6 +77,9 @@ def probe_exprs(y, alias):
     res = [
         ("fun", True, False, "%s%s_pf()" % (q, x)),
         ("fun", False, False, "%s%s_qf()" % (q, x)),
+        # a name defined twice in the file: the LAST definition's visibility counts
+        ("fun-redefined", False, False, "%s%s_rf()" % (q, x)),
+        ("fun-redefined", True, False, "%s%s_sf()" % (q, x)),
         ("enum-variant-value", True, False, "%s%sPEa" % (q, X)),
         ("enum-variant-value", False, False, "%s%sQEa" % (q, X)),
         ("enum-constructor", True, False, "%s%sPEb(1)" % (q, X)),
@@ -436,8 +443,8 @@ def run(ctx):
         for prj, probes, res in zip(projects, allprobes, results):
             enc = encode_project(prj, probes)
             for p in probes:
-                if p["kind"] in ("type-hint", "enum-variant-pattern"):
-                    continue        # outside the model (typing of patterns / hints); search only
+                if p["kind"] in ("type-hint", "enum-variant-pattern", "fun-redefined"):
+                    continue        # outside the model (typing of patterns / hints; names defined twice); search only
                 lines.append("imports\t%s\t%s\t%s\t%s\t%s\t%s" % (enc, LET[p["file"]], p["kind"], LET[p["target"]],
                                                                  "1" if p["public"] else "0",
                                                                  p["expr"].split("::")[0] if p["form"] == "qualified" and "::" in p["expr"] else "-"))
